@@ -38,8 +38,8 @@ theorem no_other_path_for_the_value :
       ["loader/environment.go:ResolveEnvironment:resolveConfigsEnvironment", "loader/environment.go:ResolveEnvironment:resolveSecretsEnvironment",
        "loader/loader.go:loadYamlModel:ResolveEnvironment", "loader/loader.go:loadYamlModel:resolveSecretsEnvironment"] ∧
     CV.Gen.SecretsInclude.carrier_uses =
-      ["loader/environment.go:resolveSecretsEnvironment:SecretConfigXValue", "loader/loader.go:secretConfigDecoderHook:SecretConfigXValue",
-       "loader/loader.go:secretConfigDecoderHook:SecretConfigXValue"] ∧
+      ["loader/environment.go:resolveSecretsEnvironment:SecretConfigXValue", "loader/loader.go:processExtensions:SecretConfigXValue",
+       "loader/loader.go:secretConfigDecoderHook:SecretConfigXValue", "loader/loader.go:secretConfigDecoderHook:SecretConfigXValue"] ∧
     CV.Gen.SecretsInclude.flag_writes =
       ["types/derived.gen.go:deriveDeepCopy_*:dst.marshallContent = src.marshallContent", "types/derived.gen.go:deriveDeepCopy_*:dst.marshallContent = src.marshallContent",
        "types/project.go:marshallOptions.apply:config.marshallContent = true"] ∧
